@@ -22,8 +22,7 @@ path. That the real billet never fails on such pairs is checked by the `sync` st
                   already in the store)
   deliver       = the loop of (*Module).AddMPTNodes, module.go:571-607
   rebuild       = the pool reconstruction of (*Module).defineSyncStage, module.go:333-357, i.e.
-                  Billet.Traverse over what is in the store with the `process` callback as written —
-                  including its `panic("failed to get MPT node from the pool")`
+                  Billet.Traverse over what is in the store with the `process` callback as written
 Core Lean only.
 -/
 namespace NeoModel.StateSync
@@ -51,15 +50,28 @@ structure MS where
   refs : Hash → Nat
   temp : List (Path × Nat)
   pool : Pool
+  /-- ghost (not part of the Go state): the `(hash, path)` pairs `RestoreHashNode` was called with -/
+  done : List (Hash × Path)
 
-def MS.init (root : Hash) : MS := { refs := fun _ => 0, temp := [], pool := [(root, [])] }
+def MS.init (root : Hash) : MS := { refs := fun _ => 0, temp := [], pool := [(root, [])], done := [] }
 
-/-- Contract of `Billet.RestoreHashNode(path, n)` for a pair from the pool. -/
-def restoreAt (s : MS) (h : Hash) (n : SNode) (path : Path) : MS :=
-  { s with refs := fun x => if x = h then s.refs h + 1 else s.refs x,
+/-- The loop `for _, path := range nPaths { billet.RestoreHashNode(path, n.Clone()) }` (module.go:662-669)
+under the contract of `RestoreHashNode` for pairs from the pool: one reference and, for a leaf, one
+storage item per path. -/
+def restoreAll (s : MS) (h : Hash) (n : SNode) (paths : List Path) : MS :=
+  { s with refs := fun x => if x = h then s.refs h + paths.length else s.refs x,
            temp := match n.val with
-                   | some v => s.temp ++ [(path, v)]
-                   | none => s.temp }
+                   | some v => s.temp ++ paths.map (fun p => (p, v))
+                   | none => s.temp,
+           done := s.done ++ paths.map (fun p => (h, p)) }
+
+/-- module.go:678-686: a child that is already in the store is restored at once from there. -/
+def restoreStored (db : Hash → Option SNode) (rec : MS → Hash → SNode → MS) (s : MS) (c : Hash) : MS :=
+  if s.refs c > 0 then
+    match db c with
+    | some cn => rec s c cn
+    | none => s
+  else s
 
 /-- (*Module).restoreNode. `db` is only consulted for children that are already in the store
 (`billet.GetFromStore`). -/
@@ -69,15 +81,10 @@ def restoreNode (db : Hash → Option SNode) : Nat → MS → Hash → SNode →
     let paths := pathsOf s.pool h
     if paths.isEmpty then s           -- "it can easily happen after receiving the same data from different peers"
     else
-      let s1 := paths.foldl (fun s p => restoreAt s h n p) s
       let kids := paths.flatMap (fun p => childrenPaths p n)
-      let s2 := { s1 with pool := addAll (removeHash s1.pool h) kids }
-      kids.foldl (fun s k =>
-        if s.refs k.1 > 0 then
-          match db k.1 with
-          | some cn => restoreNode db fuel s k.1 cn
-          | none => s
-        else s) s2
+      let s1 := restoreAll s h n paths
+      let s2 := { s1 with pool := addAll (removeHash s1.pool h) kids }     -- mptpool.Update
+      kids.foldl (fun s k => restoreStored db (restoreNode db fuel) s k.1) s2
 
 inductive Item
   | node (h : Hash) (n : SNode)   -- a decodable node and its hash
@@ -89,29 +96,29 @@ def deliver (db : Hash → Option SNode) (fuel : Nat) : MS → List Item → MS 
   | s, .garbage :: _ => (s, false)
   | s, .node h n :: r => deliver db fuel (restoreNode db fuel s h n) r
 
-/-- Billet.Traverse over the stored part of the trie with the callback of defineSyncStage.
-`none` = the callback's panic. -/
-def traverse (db : Hash → Option SNode) (refs : Hash → Nat) : Nat → Pool → Hash → Path → Option Pool
-  | 0, p, _, _ => some p
+/-- Several AddMPTNodes calls (a failed call keeps what its earlier items did). -/
+def batches (db : Hash → Option SNode) (fuel : Nat) (s : MS) (bs : List (List Item)) : MS :=
+  bs.foldl (fun s b => (deliver db fuel s b).1) s
+
+/-- Billet.Traverse over the stored part of the trie with the callback of defineSyncStage
+(module.go:336-353). The callback is invoked once per position; a node that is no longer in the temporary
+pool (already processed for all of its paths at an earlier position) is skipped, the traversal goes on
+below it. (Before fix 0dd24d5 the callback panicked there.) -/
+def traverse (db : Hash → Option SNode) (refs : Hash → Nat) : Nat → Pool → Hash → Path → Pool
+  | 0, p, _, _ => p
   | fuel + 1, p, h, path =>
-    if refs h = 0 then some p                      -- missing from the store: stays a hash node
+    if refs h = 0 then p                           -- missing from the store: stays a hash node
     else match db h with
-      | none => some p
+      | none => p
       | some n =>
         let paths := pathsOf p h
-        if paths.isEmpty then none                 -- panic("failed to get MPT node from the pool")
-        else
-          let p1 := addAll (removeHash p h) (paths.flatMap (fun q => childrenPaths q n))
-          n.kids.foldl (fun acc k =>
-            match acc with
-            | none => none
-            | some q => traverse db refs fuel q k.2 (path ++ k.1)) (some p1)
+        let p1 := if paths.isEmpty then p
+                  else addAll (removeHash p h) (paths.flatMap (fun q => childrenPaths q n))
+        n.kids.foldl (fun q k => traverse db refs fuel q k.2 (path ++ k.1)) p1
 
 /-- Pool reconstruction on module (re)creation. -/
-def rebuild (db : Hash → Option SNode) (fuel : Nat) (root : Hash) (s : MS) : Option MS :=
-  match traverse db s.refs fuel [(root, [])] root [] with
-  | none => none
-  | some p => some { s with pool := p }
+def rebuild (db : Hash → Option SNode) (fuel : Nat) (root : Hash) (s : MS) : MS :=
+  { s with pool := traverse db s.refs fuel [(root, [])] root [] }
 
 def poolHashes (p : Pool) : List Hash := (p.map (·.1)).eraseDups
 
